@@ -43,6 +43,8 @@ type scen struct {
 	quit      bool // direct: quit channel closed before the calls
 	callEnd   []int64
 	anomaly   string
+	big       bool // written as a compact CCoalBig case
+	rounds    []int
 	doneCh    []chan struct{} // per writer: closed when its result is in
 	nilFaults bool
 }
@@ -748,6 +750,9 @@ func (s *scen) term() string {
 			cd = append(cd, hlib.Pair(hlib.Z(int64(t)), "ECanceled")) // the harness only ever cancels
 		}
 	}
+	if s.big {
+		return s.bigTerm()
+	}
 	wire := s.link.C2S.Bytes()
 	evs := hlib.List(s.evs)
 	if s.coalesce {
@@ -766,6 +771,10 @@ func (s *scen) describe() map[string]interface{} {
 	var lens []int
 	for _, f := range s.frames {
 		lens = append(lens, len(f))
+	}
+	if s.big {
+		return map[string]interface{}{"scenario": s.kind, "id": s.id, "coalesce": s.coalesce, "has_timeout": s.hasTo,
+			"frames": fmt.Sprintf("%d body-less frames of %d bytes", len(s.frames), len(s.frames[0])), "rounds": s.rounds, "faults": fl}
 	}
 	return map[string]interface{}{"scenario": s.kind, "id": s.id, "coalesce": s.coalesce, "has_timeout": s.hasTo, "frame_lens": lens,
 		"faults": fl, "events": s.evs, "pre_cancelled": s.preDone}
